@@ -416,7 +416,7 @@ class BuiltinMixin:
             raise Unsupported('getattr with symbolic name')
         if len(args) > 2:
             try:
-                return self.getattr_value(o, n.t, node)
+                return self.getattr_value(o, n.t, node, default=args[2] if args[2].k != 'none' else SV('none'))
             except PyRaise as r:
                 if r.exc == 'AttributeError':
                     return args[2]
